@@ -156,6 +156,9 @@ def evaluate(mut, n):
     work = tempfile.mkdtemp(prefix='pvmut%d-' % n)
     try:
         shutil.copytree(os.path.join(REPO, 'src'), os.path.join(work, 'src'))
+        for extra in ('tests', 'pyproject.toml'):  # (C01 / C02 run the repository's own tests of the tree under test as one of their cases)
+            if os.path.exists(os.path.join(REPO, extra)):
+                os.symlink(os.path.join(REPO, extra), os.path.join(work, extra))
         with open(os.path.join(work, mut['path']), 'w') as fh:
             fh.write(mut['src'])
         env = dict(os.environ, PYTHONPATH=os.path.join(work, 'src'))
